@@ -208,10 +208,12 @@ fn core_plan(prop: &str, thorough: bool, seed: u64, all_cases: &[CaseRec], tidx:
                 modes.extend((0..nbits).map(|b| K2Mode::BitNeighbour(b * (256 / nbits))));
                 modes.extend((0..if thorough { 64 } else { 8 }).map(|_| K2Mode::Random));
                 for (i, m) in modes.iter().enumerate() {
+                    // every third instance: a raw (non-JSON) message at the core layer, incl. the empty message
+                    let raw = i % 3 == 1;
                     let spec = InstSpec {
                         msg_len: [0, 1, 33, 64, 200][i % 5],
                         msg_class: i,
-                        json_msg: true,
+                        json_msg: !raw,
                         pair_idx: i,
                         k2: *m,
                         k1_special: if i % 50 == 3 { 1 } else if i % 50 == 4 { 2 } else { 0 },
@@ -219,7 +221,7 @@ fn core_plan(prop: &str, thorough: bool, seed: u64, all_cases: &[CaseRec], tidx:
                     };
                     let inst = make_instance(&spec, &pairs, &mut r);
                     let cfg = ReplayCfg {
-                        layers: if i % 8 == 0 { all_layers.clone() } else { vec![Layer::Core] },
+                        layers: if i % 8 == 0 && !raw { all_layers.clone() } else { vec![Layer::Core] },
                         budget: Budget { bits: 0, chars: 0, other: 0 },
                         max_tokens: 1,
                         offdiag_tokens: 0,
@@ -244,10 +246,11 @@ fn core_plan(prop: &str, thorough: bool, seed: u64, all_cases: &[CaseRec], tidx:
                 let is_slow = slow(&case.mint.pr);
                 let n_inst = if prop == "C07" { if thorough { 16 } else { 4 } } else if is_slow && !thorough { n / 3 + 1 } else { n };
                 for i in 0..n_inst {
+                    let raw = i % 4 == 1;
                     let spec = InstSpec {
                         msg_len: [17, 0, 64, 5][i % 4],
                         msg_class: i,
-                        json_msg: true,
+                        json_msg: !raw,
                         pair_idx: i,
                         k2: K2Mode::Random,
                         k1_special: 0,
@@ -255,7 +258,7 @@ fn core_plan(prop: &str, thorough: bool, seed: u64, all_cases: &[CaseRec], tidx:
                     };
                     let inst = make_instance(&spec, &pairs, &mut r);
                     let cfg = ReplayCfg {
-                        layers: all_layers.clone(),
+                        layers: if raw { vec![Layer::Core] } else { all_layers.clone() },
                         budget: Budget { bits: 64, chars: 200, other: 8 },
                         max_tokens: if thorough { 2000 } else { 300 },
                         offdiag_tokens: if thorough { 2000 } else { 300 },
@@ -542,7 +545,8 @@ fn eval_terms_cmd(args: &[String]) -> i32 {
             return 3;
         }
     };
-    let r = c08::sweep(&terms, seed, tier == "thorough");
+    let mut r = c08::sweep(&terms, seed, tier == "thorough");
+    c08::library_vs_vectors(&vectors, &mut r);
     let s = json!({"prop": "C08", "pinned_vectors": pinned, "evaluations": r.evaluations, "distinct": r.distinct, "nviol": r.nviol,
                    "violations": r.violations, "samples": r.samples, "wall_s": t0.elapsed().as_secs_f64()});
     std::fs::write(&out, serde_json::to_string_pretty(&s).unwrap()).expect("write");
@@ -567,6 +571,121 @@ fn replay_claims_cmd(args: &[String]) -> i32 {
     if r.nviol > 0 { 1 } else { 0 }
 }
 
+/// pv run-coreobj --behaviours F --tier T --seed N --out trace.ndjson
+/// Executes every call history of MC_CoreObj on one real Paseto<V,P> builder object per
+/// (history, protocol) and reads every minted token back under a matrix of presentations.
+fn run_coreobj_cmd(args: &[String]) -> i32 {
+    use std::io::Write;
+    install_panic_hook();
+    let path = arg(args, "--behaviours").expect("--behaviours");
+    let tier = arg(args, "--tier").unwrap_or_else(|| "quick".into());
+    let seed: u64 = arg(args, "--seed").and_then(|s| s.parse().ok()).unwrap_or(1);
+    let out = arg(args, "--out").expect("--out");
+    let thorough = tier == "thorough";
+    let text = std::fs::read_to_string(&path).expect("behaviours");
+    let behs: Vec<Value> = text.lines().filter(|l| !l.trim().is_empty()).map(|l| serde_json::from_str(l).expect("line")).collect();
+    let chunks: Vec<Vec<String>> = std::thread::scope(|sc| {
+        let mut hs = vec![];
+        for t in 0..THREADS {
+            let behs = &behs;
+            hs.push(sc.spawn(move || {
+                let mut r = conc::rng(seed, &format!("coreobj-{}", t));
+                let mut lines = vec![];
+                for (i, beh) in behs.iter().enumerate().filter(|(i, _)| i % THREADS == t) {
+                    for pr in Proto::all() {
+                        let slow = pr.public && (pr.v == 1 || pr.v == 3);
+                        if !thorough && pr.v != 4 && i % if slow { 24 } else { 6 } != 0 {
+                            continue;
+                        }
+                        if thorough && slow && i % 4 != 0 {
+                            continue;
+                        }
+                        let kms = vec![conc::random_keymat(&mut r, i), conc::random_keymat(&mut r, i + 1)];
+                        let msgs = [conc::json_message(&mut r, 5 + i % 60, i), conc::json_message(&mut r, 7 + i % 50, i + 1)];
+                        let pairs = [("kid-1", "assert-1"), ("é", "a"), ("{\"kid\":1}", "x".repeat(130).leak() as &str)];
+                        let (f1, a1) = pairs[i % 3];
+                        let seeds = [conc::random_bytes32(&mut r), conc::random_bytes32(&mut r)];
+                        let conc_of = |name: &str| -> String {
+                            match name { "m1" => msgs[0].clone(), "m2" => msgs[1].clone(), "f1" => f1.to_string(), "a1" => a1.to_string(), _ => String::new() }
+                        };
+                        let mut cops = vec![COp::Payload(msgs[0].clone())];
+                        let ops = beh["ops"].as_array().unwrap();
+                        for o in ops {
+                            let v = o["v"].as_str().unwrap_or("");
+                            match o["op"].as_str().unwrap_or("") {
+                                "payload" => cops.push(COp::Payload(conc_of(v))),
+                                "footer" => cops.push(COp::Footer(conc_of(v))),
+                                "assertion" => cops.push(COp::Assertion(conc_of(v))),
+                                "mint" => cops.push(COp::Mint { key: 0, seed: if o["s"] == "s2" { seeds[1] } else { seeds[0] } }),
+                                _ => {}
+                            }
+                        }
+                        let outs = run_core_object(pr, &cops, &kms);
+                        let mut outs = outs.into_iter();
+                        let mut ops_json = vec![];
+                        for o in ops {
+                            if o["op"] != "mint" {
+                                ops_json.push(o.clone());
+                                continue;
+                            }
+                            let mut oj = o.clone();
+                            match outs.next().unwrap_or(Out::Panic("missing".into())) {
+                                Out::Ok(tok) => {
+                                    // read back under {k1,k2} x {none, f1, empty} x {none, a1, empty}
+                                    let mut reads = vec![];
+                                    for (kn, km) in [("k1", &kms[0]), ("k2", &kms[1])] {
+                                        for fname in ["none", "f1", "empty"] {
+                                            for aname in ["none", "a1", "empty"] {
+                                                if !pr.has_assertion() && aname != "none" {
+                                                    continue;
+                                                }
+                                                if kn == "k2" && (fname == "empty" || aname == "empty") {
+                                                    continue;
+                                                }
+                                                let f = match fname { "none" => None, "empty" => Some(""), _ => Some(f1) };
+                                                let a = match aname { "none" => None, "empty" => Some(""), _ => Some(a1) };
+                                                let res = core_present(pr, &tok, km, f, a);
+                                                let (rc, msg) = match &res {
+                                                    Out::Ok(m) if *m == msgs[0] => ("ok".to_string(), "m1"),
+                                                    Out::Ok(m) if *m == msgs[1] => ("ok".to_string(), "m2"),
+                                                    Out::Ok(_) => ("ok".to_string(), "other"),
+                                                    o => (o.class().to_string(), ""),
+                                                };
+                                                reads.push(json!({"k": kn, "f": fname, "a": aname, "res": rc, "msg": msg}));
+                                            }
+                                        }
+                                    }
+                                    oj["res"] = json!("ok");
+                                    oj["reads"] = json!(reads);
+
+                                }
+                                o => {
+                                    oj["res"] = json!(format!("{}:{}", o.class(), o.detail()));
+                                    oj["reads"] = json!([]);
+                                }
+                            }
+                            ops_json.push(oj);
+                        }
+                        lines.push(json!({"id": format!("{}:{}", i, pr.name()), "pr": pr.name(), "ops": ops_json}).to_string());
+                    }
+                }
+                lines
+            }));
+        }
+        hs.into_iter().map(|h| h.join().expect("thread")).collect()
+    });
+    let mut f = std::io::BufWriter::new(std::fs::File::create(&out).expect("out"));
+    let mut n = 0;
+    for c in chunks {
+        for l in c {
+            writeln!(f, "{}", l).unwrap();
+            n += 1;
+        }
+    }
+    println!("{}", n);
+    0
+}
+
 fn main() {
     let args: Vec<String> = std::env::args().collect();
     let code = match args.get(1).map(|s| s.as_str()) {
@@ -575,6 +694,7 @@ fn main() {
         Some("minted-checks") => minted_checks(&args),
         Some("run-builder") => run_builder_cmd(&args),
         Some("run-parser") => run_parser_cmd(&args),
+        Some("run-coreobj") => run_coreobj_cmd(&args),
         Some("replay-shapes") => replay_shapes_cmd(&args),
         Some("eval-terms") => eval_terms_cmd(&args),
         Some("replay-claims") => replay_claims_cmd(&args),
